@@ -3,9 +3,9 @@
    for each candidate: applies, compiles, existing tests pass, demo fails with the change, demo passes without.
    Writes /verif/seeded/_confirm.json. usage: confirm_seeds.py [ids...]"""
 import json, os, re, subprocess, sys, shutil, glob
-WT = "/tmp/wt/confirm"
+WT = os.environ.get("CONFIRM_WT", "/tmp/wt/confirm")
 CAND = "/verif/seeded/_candidates"  # intake directory for new sub-agent changes (emptied after promotion)
-OUT = "/verif/seeded/_confirm.json"
+OUT = os.environ.get("CONFIRM_OUT", "/verif/seeded/_confirm.json")
 
 def sh(cmd, cwd=None, timeout=1800):
     p = subprocess.run(["bash", "-o", "pipefail", "-c", cmd], cwd=cwd, capture_output=True, text=True, timeout=timeout)
@@ -19,7 +19,7 @@ def main():
     else:
         sh("git checkout -q --detach $(git -C /repo rev-parse HEAD) && git checkout -- . && git clean -fdq -e target", cwd=WT)
     want = sys.argv[1:]
-    for d in sorted(glob.glob(CAND + "/C*/[0-9]")):
+    for d in sorted(glob.glob(CAND + "/C*/[0-9]*")):
         pid = d.split("/")[-2]; k = d.split("/")[-1]; key = "%s/%s" % (pid, k)
         if want and pid not in want and key not in want:
             continue
